@@ -18,6 +18,7 @@ MUTANTS = [
  ("M12-keep-unused-alias", "pyrefact/fixes.py", "            if (alias.name if alias.asname is None else alias.asname) not in unused_imports\n", "            if (alias.name if alias.asname is None else alias.asname) in unused_imports\n"),
  ("M13-undefined-names-only", "pyrefact/tracing.py", "    for name in _get_referenced_names(root):\n        if trace_result := trace_origin(name, source):", "    for name in get_undefined_variables(source):\n        if trace_result := trace_origin(name, source):"),
  ("M14-dotted-import-unused", "pyrefact/fixes.py", "    names.update(name for name in imports if name.split(\".\")[0] in names)\n", ""),
+ ("M16-first-alias-of-statement", "pyrefact/tracing.py", "                            for alias in reversed(module_import_node.names)  # the last binding wins\n", "                            for alias in module_import_node.names\n"),
  ("M15-merge-ignores-asname", "pyrefact/fixes.py", "                (alias.name, alias.asname if alias.asname != alias.name else None)\n                for alias in node.names\n            )\n            module_import_nodes", "                (alias.name, None)\n                for alias in node.names\n            )\n            module_import_nodes"),
 ]
 only = sys.argv[1:]
